@@ -366,6 +366,15 @@ def class_c(rng, prog, toks):
             'repeat in {} as zz_l print 1', 'printf "{{}}" {}',
             'repeat while {{ {} < 1 }} break', 'wait {}'])
         stmt = form.format(UNDEF)
+        if rng.random() < 0.15:
+            # the name on both sides of the assignment that would introduce
+            # it: still undefined where it is read
+            stmt = rng.choice([
+                'assign {0} {{ {0} + 1 }}', 'assign {0} {0}',
+                'repeat 3 begin assign {0} {{ {0} + 1 }} end',
+                'assign {0} [ sqrt {0} ]', 'assign {0} {{ 2 * ( {0} ) }}',
+                'define zz_g begin assign {0} {{ {0} - 1 }} end',
+                'if {{ 1 }} assign {0} {{ 1 + {0} }}']).format(UNDEF)
         if rng.random() < 0.2:
             # a word that names one of the lexer's internal token kinds is
             # just another undefined name -- alone at command level, before
